@@ -499,41 +499,45 @@ def run_wire(case):
 class Check(PropertyCheck):
     prop = "C28"
     design_ref = "§5 C28"
-    level_text = ("Lean theorems (19) for ALL inputs about the model of WebsocketLayer.relay_messages + Fragmentizer AND the "
-                  "transcribed wsproto wire format: each_message_once_in_order (whole interleaved histories of both directions, "
-                  "every addon policy: what a peer reassembles = the recorded non-dropped messages of the other direction, once, in "
-                  "order, with type), each_burst_is_one_message, delivered_equals_recorded, binary_exact, text_exact (every byte "
-                  "string), text_exact_utf8 (every well-formed UTF-8 string), unmodified_keeps_boundaries / "
-                  "unmodified_message_keeps_frames (+ text_buffer_stays_valid), injected_recorded_once, "
-                  "partial_frame_events_insensitive (TCP segmentation inside a frame), frame_roundtrip / stream_roundtrip "
-                  "(FIN/RSV/opcode, 7/16/64-bit lengths, masking), message_wire_roundtrip (any fragmentation of a message is "
-                  "decoded to its fragment events and reassembled to one message), wire_message_end_to_end (peer bytes -> proxy "
-                  "decoder -> relay with addon edit -> proxy serialiser -> peer decoder+reassembly = exactly one message of the "
-                  "same type with the recorded content), controls_relayed_in_order and close_recorded_in_history (pings/pongs and "
-                  "the first close over whole histories), pings_pongs_relayed, close_code_reason_recorded. Ties: (a) san + "
-                  "Fragmentizer alone, (b) the whole layer between in-memory wsproto peers (+-deflate, keep/same-length/"
-                  "length-changing edit/drop/inject), (c) end to end through the real HttpLayer upgrade with frames sharing the "
-                  "segment of the 101 response / upgrade request, (d) the frame codec transcription against wsproto's FrameDecoder, "
-                  "serialiser and event mapping on valid, malformed, mutated and truncated streams.")
-    level_note = ("still parameters (assumed, exercised by the in-memory peers, not proved): permessage-deflate (the wire model "
-                  "takes frames with the payload the extension hands over; `rsvOk` = which RSV bits the extensions accept) and "
-                  "UTF-8 validation / incremental decoding of received text (text frames are taken to end on character "
-                  "boundaries in the wire theorems; the layer tie runs real wsproto incl. frames cut inside characters). The "
-                  "wire model decodes whole frames; wsproto's delivery of a frame in pieces is covered at event level by "
-                  "partial_frame_events_insensitive, and its early detection of sequencing errors on incomplete frames is "
-                  "outside the model (truncated streams: complete frames compared only). In the layer tie the model consumes "
-                  "the events a shadow wsproto connection yields for the same bytes (e2e: the bytes the layer's connections "
-                  "received) and its outputs are compared with the events handed to wsproto.send; the property oracle works on "
-                  "what the peers decode from SendData and derives every expected value from the input script. Under deflate, "
-                  "frame boundaries of uncompressed data are observable only at the send-event level. Run-level message theorems "
-                  "assume the model's `crash` branch (send on a non-open wsproto connection) did not happen; wsproto 1.3 yields "
-                  "nothing behind a close frame (transcribed: streamEvents stops), so the branch is unreachable through it. "
-                  "Oracle abstentions: after a protocol violation BY A PEER only the items sent before it are owed (prefix "
-                  "check, nothing is skipped); the single Skip is a stray CONTINUATION frame the harness peer's own deflate "
-                  "compressor refuses to serialise. permessage-deflate itself stays a parameter of the proofs; the harness peers are "
-                  "configured from the negotiated Sec-WebSocket-Extensions value (window bits, context takeover) and reject what "
-                  "the negotiation forbids; window bits 8 are not generated (wsproto and zlib refuse them: the layer's own "
-                  "finalize() would raise ValueError at start). No findings; three defects repaired in /repo (two by this check).")
+    level_text = ("Lean theorems (27) for ALL inputs about the model of WebsocketLayer.relay_messages + Fragmentizer and the transcribed "
+                  "wsproto receive/send path (frame codec, message decoder incl. its strict incremental UTF-8 decoder, close parsing). "
+                  "Clause table (statement clause -> theorems | oracle clauses): "
+                  "(1) every message, as modified/dropped/injected, delivered exactly once, in order, as ONE message of the same type, "
+                  "any fragmentation/segmentation -> each_message_once_in_order, each_message_once_in_order_wsproto (no crash "
+                  "hypothesis: no_crash_when_close_is_last + stream_events_close_last), each_burst_is_one_message, "
+                  "injected_recorded_once, message_wire_roundtrip, text_message_wire_roundtrip_any_cuts, wire_message_end_to_end, "
+                  "frame_roundtrip, stream_roundtrip, partial_frame_events_insensitive | 'n sent/injected, m recorded', 'recorded "
+                  "type/direction/injected differ', 'was not delivered', 'delivered with the other type', 'peer received k, j expected', "
+                  "'burst is not exactly one message'. (2) content equals the recorded content -> delivered_equals_recorded, "
+                  "binary_exact, text_exact, text_exact_utf8, text_frames_cut_anywhere, text_message_cut_anywhere_recorded | 'recorded "
+                  "content differs from the sent/edited content', 'delivered content differs from the recorded content', 'fragments "
+                  "concatenate to'. (3) unmodified messages keep their frame boundaries -> unmodified_keeps_boundaries, "
+                  "unmodified_message_keeps_frames, unmodified_text_message_any_cuts, text_buffer_stays_valid, decoder_output_is_utf8 | "
+                  "'unmodified but frame boundaries changed', 'unmodified message re-fragmented'. (4) pings and pongs are relayed -> "
+                  "pings_pongs_relayed, controls_relayed_in_order | 'pings/pongs from x: sent .. relayed ..'. (5) recorded close code "
+                  "and reason are the closing peer's -> close_code_reason_recorded, close_recorded_in_history | 'close recorded as'. "
+                  "Ties: san + Fragmentizer; the whole layer between in-memory wsproto peers (+-deflate with negotiated parameters, "
+                  "keep/edit/drop/inject); end to end through the HttpLayer upgrade; the frame codec, event mapping and incremental "
+                  "UTF-8 decoder transcriptions against wsproto / codecs on valid, malformed, mutated and truncated input.")
+    level_note = ("still parameters (assumed, exercised by the in-memory peers, not proved): permessage-deflate (zlib; the wire model "
+                  "takes frames with the payload the extension hands over, `rsvOk` = RSV bits the extensions accept) and the UTF-8 "
+                  "validity of close REASONS. Received text is no longer a parameter: wsproto's strict incremental decoder is "
+                  "transcribed (stepS/goS/incDecode/decodeChunks, frameEventU/streamEventsU), tied against codecs' incremental decoder "
+                  "and wsproto's events on frames cut inside characters, and its outputs are proved UTF-8 (decoder_output_is_utf8). "
+                  "The `crashed` hypothesis of the run-level theorems is derived for every history whose batches carry a close only "
+                  "as last event (no_crash_when_close_is_last), which the transcribed receive path guarantees "
+                  "(stream_events_close_last). The wire model decodes whole frames; delivery of a frame in pieces is covered at event "
+                  "level (partial_frame_events_insensitive); wsproto's EARLY report of sequencing errors on incomplete frames is "
+                  "outside the model (truncated streams: complete frames compared only). In the layer tie the model consumes the "
+                  "events a shadow wsproto connection yields for the same bytes (e2e: the bytes the layer's connections received) "
+                  "and its outputs are compared with the events handed to wsproto.send; the oracle works on what the peers decode "
+                  "from SendData and derives every expected value from the input script. Under deflate, frame boundaries of "
+                  "uncompressed data are observable only at the send-event level. Lenient branches of the check: (a) after a "
+                  "protocol violation BY A PEER only the items sent before it are owed (prefix check, nothing skipped); (b) the "
+                  "single Skip: a stray CONTINUATION frame the harness peer's own deflate compressor refuses to serialise; (c) a text "
+                  "message whose content an addon set to non-UTF-8 bytes is owed only as its decode-replace image (text_exact); "
+                  "(d) window bits 8 are not generated (wsproto/zlib refuse them; the layer's finalize() would raise at start). "
+                  "No findings; three defects repaired in /repo (two by this check).")
     technique = "Lean 4 proof (induction over event sequences, byte strings and frame streams) + differential model-vs-code correspondence (Fragmentizer, full layer, HTTP upgrade end to end, wsproto frame codec)"
     rule = ("san: byte soups over UTF-8 lead/continuation boundary values; frag: (is_text, original fragment lengths, new content) "
             "with 1-4 byte characters straddling multiples of FRAGMENT_SIZE and original fragment boundaries, sizes 0..3*FS+3, "
@@ -546,7 +550,9 @@ class Check(PropertyCheck):
             "deflate: negotiated permessage-deflate parameter sets (each parameter alone and in pairs, every position, window bits "
             "9/10/11/15) x messages repeating earlier data inside one message and across messages at distances around 2^bits, both "
             "directions, peers configured from the negotiated header; "
-            "frame streams (masked/unmasked, 7/16/64-bit lengths, control frames, close codes) incl. bad RSV/opcode/mask/"
+            "uinc: the payloads of the frames of one text message cut at arbitrary byte positions (valid text, truncated last "
+            "character, byte soup) through the incremental decoder; "
+            "frame streams (masked/unmasked, 7/16/64-bit lengths, control frames, close codes, text cut inside characters) incl. bad RSV/opcode/mask/"
             "length form/sequencing, a mutated header byte, truncation. distinct = distinct case; non-trivial = "
             "at least one frame/fragment.")
     budget = {"quick": 5200, "thorough": 120000}
